@@ -316,16 +316,96 @@ theorem foldTTL_cons (t : Int) (rest : List Int) (h : rest ≠ []) :
   | nil => exact absurd rfl h
   | cons a r => rfl
 
-theorem minNonZeroTTL_spec (a b : Int) :
+/-- the int64 range of a `time.Duration` -/
+def inI64 (a : Int) : Prop := -2 ^ 63 ≤ a ∧ a < 2 ^ 63
+
+theorem toInt_ofInt_range (a : Int) (h : inI64 a) : (BitVec.ofInt 64 a).toInt = a := by
+  rw [BitVec.toInt_ofInt]
+  apply Int.bmod_eq_of_le <;> (have := h.1; have := h.2; omega)
+
+/-- the regenerated Go function computes, on int64 values, the intended integer function -/
+theorem minNonZeroTTL_eq (a b : Int) (ha : inI64 a) (hb : inI64 b) :
+    minNonZeroTTL a b = (if min a b ≤ 0 then max 0 (max a b) else min a b) := by
+  have ea := toInt_ofInt_range a ha
+  have eb := toInt_ofInt_range b hb
+  have e0 : (0#64 : BitVec 64).toInt = 0 := by decide
+  unfold minNonZeroTTL Gen.C29.minNonZeroTTL GoInt.smin GoInt.smax
+  simp only
+  by_cases hba : b < a
+  · have h1 : BitVec.slt (BitVec.ofInt 64 b) (BitVec.ofInt 64 a) = true := by
+      rw [BitVec.slt_iff_toInt_lt, ea, eb]; exact hba
+    simp only [h1, if_true]
+    by_cases hb0 : b ≤ 0
+    · have h2 : BitVec.sle (BitVec.ofInt 64 b) 0#64 = true := by
+        rw [BitVec.sle_iff_toInt_le, eb, e0]; exact hb0
+      simp only [h2, if_true]
+      by_cases ha0 : 0 < a
+      · have h3 : BitVec.slt 0#64 (BitVec.ofInt 64 a) = true := by
+          rw [BitVec.slt_iff_toInt_lt, ea, e0]; exact ha0
+        have h4 : BitVec.slt (BitVec.ofInt 64 a) (BitVec.ofInt 64 b) = false := by
+          rw [Bool.eq_false_iff]; intro h; rw [BitVec.slt_iff_toInt_lt, ea, eb] at h; omega
+        simp only [h3, if_true, h4, Bool.false_eq_true, if_false, ea]
+        have : min a b = b := by omega
+        rw [this]; simp only [hb0, if_true]; omega
+      · have h3 : BitVec.slt 0#64 (BitVec.ofInt 64 a) = false := by
+          rw [Bool.eq_false_iff]; intro h; rw [BitVec.slt_iff_toInt_lt, ea, e0] at h; omega
+        have h4 : BitVec.slt 0#64 (BitVec.ofInt 64 b) = false := by
+          rw [Bool.eq_false_iff]; intro h; rw [BitVec.slt_iff_toInt_lt, eb, e0] at h; omega
+        simp only [h3, Bool.false_eq_true, if_false, h4, e0]
+        have : min a b = b := by omega
+        rw [this]; simp only [hb0, if_true]; omega
+    · have h2 : BitVec.sle (BitVec.ofInt 64 b) 0#64 = false := by
+        rw [Bool.eq_false_iff]; intro h; rw [BitVec.sle_iff_toInt_le, eb, e0] at h; omega
+      simp only [h2, Bool.false_eq_true, if_false, eb]
+      have : min a b = b := by omega
+      rw [this]; simp only [hb0, if_false]
+  · have h1 : BitVec.slt (BitVec.ofInt 64 b) (BitVec.ofInt 64 a) = false := by
+      rw [Bool.eq_false_iff]; intro h; rw [BitVec.slt_iff_toInt_lt, ea, eb] at h; omega
+    simp only [h1, Bool.false_eq_true, if_false]
+    have hmin : min a b = a := by omega
+    rw [hmin]
+    by_cases ha0 : a ≤ 0
+    · have h2 : BitVec.sle (BitVec.ofInt 64 a) 0#64 = true := by
+        rw [BitVec.sle_iff_toInt_le, ea, e0]; exact ha0
+      have h3 : BitVec.slt 0#64 (BitVec.ofInt 64 a) = false := by
+        rw [Bool.eq_false_iff]; intro h; rw [BitVec.slt_iff_toInt_lt, ea, e0] at h; omega
+      simp only [h2, if_true, h3, Bool.false_eq_true, if_false, ha0]
+      by_cases hb0 : 0 < b
+      · have h4 : BitVec.slt 0#64 (BitVec.ofInt 64 b) = true := by
+          rw [BitVec.slt_iff_toInt_lt, eb, e0]; exact hb0
+        simp only [h4, if_true, eb]; omega
+      · have h4 : BitVec.slt 0#64 (BitVec.ofInt 64 b) = false := by
+          rw [Bool.eq_false_iff]; intro h; rw [BitVec.slt_iff_toInt_lt, eb, e0] at h; omega
+        simp only [h4, Bool.false_eq_true, if_false, e0]; omega
+    · have h2 : BitVec.sle (BitVec.ofInt 64 a) 0#64 = false := by
+        rw [Bool.eq_false_iff]; intro h; rw [BitVec.sle_iff_toInt_le, ea, e0] at h; omega
+      simp only [h2, Bool.false_eq_true, if_false, ea, ha0]
+
+theorem minNonZeroTTL_spec (a b : Int) (ha : inI64 a) (hb : inI64 b) :
     (0 < a → 0 < b → minNonZeroTTL a b = min a b) ∧
     (0 < a → b ≤ 0 → minNonZeroTTL a b = a) ∧
     (a ≤ 0 → 0 < b → minNonZeroTTL a b = b) ∧
     (a ≤ 0 → b ≤ 0 → minNonZeroTTL a b = 0) := by
-  unfold minNonZeroTTL
-  refine ⟨?_, ?_, ?_, ?_⟩ <;> intro h1 h2 <;> simp only <;> split <;> omega
+  rw [minNonZeroTTL_eq a b ha hb]
+  refine ⟨?_, ?_, ?_, ?_⟩ <;> intro h1 h2 <;> split <;> omega
+
+theorem minNonZeroTTL_range (a b : Int) (ha : inI64 a) (hb : inI64 b) : inI64 (minNonZeroTTL a b) := by
+  rw [minNonZeroTTL_eq a b ha hb]
+  unfold inI64 at *
+  split <;> omega
+
+theorem foldTTL_range (ts : List Int) (h : ∀ t ∈ ts, inI64 t) : inI64 (foldTTL ts) := by
+  induction ts with
+  | nil => unfold inI64; simp [foldTTL]
+  | cons a rest ih =>
+    cases rest with
+    | nil => simpa [foldTTL] using h a (by simp)
+    | cons b r =>
+      rw [foldTTL_cons a (b :: r) (by simp)]
+      exact minNonZeroTTL_range _ _ (h a (by simp)) (ih (fun t ht => h t (by simp [ht])))
 
 /-- the folded TTL is the smallest positive hop TTL, or ≤ 0 when there is none -/
-theorem foldTTL_good (ts : List Int) (h : ts ≠ []) :
+theorem foldTTL_good (ts : List Int) (h : ts ≠ []) (hr : ∀ t ∈ ts, inI64 t) :
     (∀ t ∈ ts, 0 < t → foldTTL ts ≤ t) ∧
     ((foldTTL ts ≤ 0 ∧ ∀ t ∈ ts, t ≤ 0) ∨ (0 < foldTTL ts ∧ foldTTL ts ∈ ts)) := by
   induction ts with
@@ -339,10 +419,11 @@ theorem foldTTL_good (ts : List Int) (h : ts ≠ []) :
       · exact .inr ⟨ha, trivial⟩
       · exact .inl ⟨by omega, by omega⟩
     | cons b r =>
-      have ih := ih (by simp)
+      have ih := ih (by simp) (fun t ht => hr t (by simp [ht]))
+      have hm := foldTTL_range (b :: r) (fun t ht => hr t (by simp [ht]))
       rw [foldTTL_cons a (b :: r) (by simp)]
-      generalize foldTTL (b :: r) = m at ih ⊢
-      have sp := minNonZeroTTL_spec a m
+      generalize foldTTL (b :: r) = m at ih hm ⊢
+      have sp := minNonZeroTTL_spec a m (hr a (by simp)) hm
       obtain ⟨ih1, ih2⟩ := ih
       by_cases ha : 0 < a
       · rcases ih2 with ⟨hm, hall⟩ | ⟨hm, hmem⟩
@@ -385,7 +466,7 @@ theorem foldTTL_good (ts : List Int) (h : ts ≠ []) :
           · omega
           · exact ih1 t (by simpa using ht) hpos
 
-theorem minNonZeroTTL_nonneg (a b : Int) : 0 ≤ minNonZeroTTL a b := by
-  unfold minNonZeroTTL; simp only; split <;> omega
+theorem minNonZeroTTL_nonneg (a b : Int) (ha : inI64 a) (hb : inI64 b) : 0 ≤ minNonZeroTTL a b := by
+  rw [minNonZeroTTL_eq a b ha hb]; split <;> omega
 
 end C29
